@@ -324,6 +324,7 @@ def run(ctx: Ctx) -> None:
     from ..rules import memo as _memo
     _memo.rule_memo_sound(ctx, ['graphiq/circuit/ops.py', 'graphiq/backends/density_matrix/functions.py'])
     _memo.rule_falsy_zero(ctx, ['graphiq/circuit/ops.py', 'graphiq/backends/density_matrix/functions.py'])
+    _memo.rule_arg_names(ctx, ['graphiq/circuit/ops.py', 'graphiq/backends/density_matrix/functions.py'])
     rule_phase_pivot(ctx)
     rule_clifford24(ctx)
     rule_order_wrapper(ctx)
